@@ -29,6 +29,8 @@ struct Standard {
     bool abbrev_rows = false, abbrev_cols = false;
     bool null_map = false;             // MAPPED over all ports in order with port_map == NULL
     std::vector<Mat> Sfull;            // true full P x P S at each frequency (incl. unconnected block)
+    std::vector<Mat> noise;            // optional: relative perturbation (r x c) of the measured cells per frequency
+    std::vector<Mat> Afix;             // optional: the 'a' matrix to use (else random), per frequency
     bool connected(int p) const { for (int q : ports) if (q == p) return true; return false; }
     std::string describe() const {
         static const char *en[] = {"single_reflect", "double_reflect", "through", "line", "mapped_matrix"};
@@ -301,6 +303,7 @@ struct Runner {
     ErrLog log;
     vnacal_t *vcp = nullptr; vnacal_new_t *vnp = nullptr;
     std::vector<int> to_delete;
+    C ab_scale = C(1, 0);              // common factor applied to a and b of every standard (C17 T4)
     Runner(pbt::Ctx &c_, Scenario &s) : c(c_), sc(s) {}
     ~Runner() { if (vnp) vnacal_new_free(vnp); if (vcp) vnacal_free(vcp); }
 
@@ -337,13 +340,13 @@ struct Runner {
             Mat M;
             PBT_CHECK(c, sc.box[f].measure(Sfull[f], M), "gen.model_singular", "model (I - S Em) singular");
             Mat Ms(br, bc);
-            for (int i = 0; i < br; i++) for (int j = 0; j < bc; j++) Ms(i, j) = M(rows[i], cols[j]);
+            for (int i = 0; i < br; i++) for (int j = 0; j < bc; j++) Ms(i, j) = M(rows[i], cols[j]) * (st.noise.empty() ? C(1, 0) : C(1, 0) + st.noise[f](rows[i], cols[j]));
             if (!sc.ab) { for (int i = 0; i < br; i++) for (int j = 0; j < bc; j++) B.set(i, j, f, Ms(i, j)); continue; }
             if (colsys) {
-                for (int j = 0; j < bc; j++) { C a = polar(0.5L + c.unit(), 2 * M_PIl * c.unit()); A.set(0, j, f, a); for (int i = 0; i < br; i++) B.set(i, j, f, Ms(i, j) * a); }
+                for (int j = 0; j < bc; j++) { C a = (st.Afix.empty() ? polar(0.5L + c.unit(), 2 * M_PIl * c.unit()) : st.Afix[f](0, cols[j])) * ab_scale; A.set(0, j, f, a); for (int i = 0; i < br; i++) B.set(i, j, f, Ms(i, j) * a); }
             } else {
                 Mat Am(bc, bc);
-                for (int i = 0; i < bc; i++) for (int j = 0; j < bc; j++) Am(i, j) = i == j ? polar(0.5L + c.unit(), 2 * M_PIl * c.unit()) : rnd_disk(c, 0, 0.15L);
+                for (int i = 0; i < bc; i++) for (int j = 0; j < bc; j++) Am(i, j) = (st.Afix.empty() ? (i == j ? polar(0.5L + c.unit(), 2 * M_PIl * c.unit()) : rnd_disk(c, 0, 0.15L)) : st.Afix[f](cols[i], cols[j])) * ab_scale;
                 Mat Bm = vm::mul(Ms, Am);
                 for (int i = 0; i < bc; i++) for (int j = 0; j < bc; j++) A.set(i, j, f, Am(i, j));
                 for (int i = 0; i < br; i++) for (int j = 0; j < bc; j++) B.set(i, j, f, Bm(i, j));
